@@ -233,6 +233,12 @@ def main():
             if len(rep.samples) < 8:
                 rep.samples.append(dict(kernel='emulate_' + r['name'], lane_obligations=r['obligations'], solver_queries=r['queries'], wall_s=r['wall'],
                                         ub_notes=r['ub_notes'], undecided_poison_obligations=r['poison']))
+    try:
+        from props import c02driver
+        c02driver.run(rep, b)
+    except Exception as e:
+        import traceback
+        rep.inconc('c02.driver', traceback.format_exc()[-400:])
     rep.extra['ub_notes_total'] = sum(r['ub_notes'] for r in results)
     rep.extra['rule'] = 'one job per opcode kernel; obligations = (lane, n) equalities; non-trivial = the kernel executed to a single closed-form path'
     return rep.finish()
